@@ -9,4 +9,4 @@ From Cffi Require Import C37.Steps.
 
 Definition inline_close : list cstep := [ CallCloseLib; ClearDict ].
 Definition backend_close_lib : list cstep := [ DlClose; SetHandleNull ].
-Definition ool_close : list cstep := [ SetHandleNull; DlClose ].
+Definition ool_close : list cstep := [ SetHandleNull; ClearDict; DlClose ].
